@@ -69,6 +69,21 @@ impl Prop for C15 {
                 })
             }),
         ];
+        v.push(Scope::new("rows-zero-width", "rows over {\",a,|,space, combining acute U+0301, zero-width space U+200B} up to length 6 above a row of bars", move |f| {
+            enumr::strings_upto(&['"', 'a', '|', ' ', '\u{301}', '\u{200b}'], 6, &mut |s| {
+                if s.contains(&'"') && (s.contains(&'\u{301}') || s.contains(&'\u{200b}')) {
+                    let row: String = s.iter().collect();
+                    f(Case::s(format!("{}\n{}", row, "|".repeat(s.len() + 1))))
+                }
+            })
+        }));
+        v.push(Scope::new("entry-points", "rows over {\",a,-,|,space} up to length 5 through all five library entry points", move |f| {
+            enumr::strings_upto(&['"', 'a', '-', '|', ' '], 5, &mut |s| {
+                if s.iter().filter(|c| **c == '"').count() >= 2 {
+                    f(Case::sn(s.iter().collect::<String>(), vec![1]))
+                }
+            })
+        }));
         let nb = if tier == Tier::Quick { 5 } else { 6 };
         v.push(Scope::new("rows-with-backslash", "rows over {\",\\,a,-,space} above a row of bars; only rows whose backslashes all lie outside the quoted regions and before no dangling quote are kept (the quantifier excludes a backslash inside quoted text)", move |f| {
             enumr::strings_upto(&['"', '\\', 'a', '-', ' '], nb, &mut |s| {
@@ -108,6 +123,28 @@ impl Prop for C15 {
         let input = &case.s;
         let (blanked, texts) = blank_and_texts(input);
         let sett = Sett::bare();
+        if case.n.first() == Some(&1) {
+            // every entry point must show the quoted texts: compare each with to_svg_with_settings (default settings)
+            use crate::conv::Entry;
+            let ds = Sett::default_();
+            let reference = match cx.conv_entry(input, &ds, Entry::WithSettings).and_then(|o| cx.parse(&o)) {
+                Some(d) => d,
+                None => return,
+            };
+            for e in [Entry::ToSvg, Entry::Pretty, Entry::Compressed, Entry::OverrideSize(reference.w as f32, reference.h as f32)] {
+                let d = match cx.conv_entry(input, &ds, e).and_then(|o| cx.parse(&o)) {
+                    Some(d) => d,
+                    None => return,
+                };
+                cx.compared();
+                let (a, b) = svg::multiset_diff(&reference.elems, &d.elems, 1e-9);
+                if !a.is_empty() || !b.is_empty() {
+                    cx.fail("quoted-entry-point", format!("entry point {:?} renders the row differently from to_svg_with_settings: missing [{}] extra [{}]", e,
+                        a.iter().take(4).map(|e| e.brief()).collect::<Vec<_>>().join(" ; "), b.iter().take(4).map(|e| e.brief()).collect::<Vec<_>>().join(" ; ")));
+                    return;
+                }
+            }
+        }
         let d = match cx.conv_doc(input, &sett) {
             Some(d) => d,
             None => return,
